@@ -250,3 +250,108 @@ def replay_get_max_advance(m):
     expected = min(causes) - 1
     ok = r == expected and snapshot(sims) == before
     return ok, f"get_max_advance({m['sim']}, until={until}) = {r}, expected {expected} from {describe(m)}"
+
+
+def replay_get_outputs(m):
+    """native unit-level replay of get_outputs for tiered (grouped) times: the output time is the
+    step's own time if the reply carries no other time, else (time, 0, .., 0); earlier -> error"""
+    import asyncio
+    import mosaik
+    from mosaik import scheduler
+    from mosaik.exceptions import SimulationError
+    from mosaik.simmanager import SimRunner
+    from mosaik.tiered_time import TieredTime
+    from tqdm import tqdm
+    case = m.get("native_case")
+    if case is None:
+        return True, "no native case in the model (symbolic counter-models of get_outputs are not replayed)"
+    cs = TieredTime(*case["current_step"])
+    rt = case["reply_time"]
+
+    class P(_StubProxy):
+        async def send(self, request):
+            d = {"e": {"a": 1}}
+            if rt is not None:
+                d["time"] = rt
+            return d
+
+    world = mosaik.World({}, skip_greetings=True)
+    sim = SimRunner("S", P("hybrid"), depth=len(cs))
+    sim.tqdm = tqdm(disable=True)
+    world.sims["S"] = sim
+    sim.current_step = cs
+    sim.last_step = cs
+    sim.output_request = {"e": ["a"]}
+    sim.outputs = {}
+    try:
+        world.loop.run_until_complete(scheduler.get_outputs(world, sim))
+    except SimulationError as e:
+        world.loop.close()
+        ok = rt is not None and rt < cs.time
+        return ok, f"get_outputs at step {cs!r} with reply time {rt}: SimulationError ({'expected' if ok else 'NOT expected'})"
+    world.loop.close()
+    if rt is not None and rt < cs.time:
+        return False, f"get_outputs at step {cs!r} accepted the earlier output time {rt}"
+    expected = cs if rt is None or rt == cs.time else TieredTime(rt, *([0] * (len(cs) - 1)))
+    ok = sim.output_time == expected and (rt if rt is not None else cs.time) in sim.outputs
+    return ok, (f"get_outputs at step {cs!r} with reply time {rt}: output_time = {sim.output_time!r}, expected {expected!r}; "
+                f"cache keys {sorted(sim.outputs)}")
+
+
+def replay_wait_for_dependencies(m):
+    """L2 replay: start the REAL coroutine in the state at the call, let it suspend, then play the
+    environment of the counter-model (every simulator's progress is set -- through the real
+    Progress.set -- to its value in the model's state after the await) and see whether the
+    coroutine returns although a dependency it must wait for has not got far enough."""
+    import asyncio
+    from mosaik import scheduler
+    from mosaik.tiered_time import TieredTime
+    if "sims" not in m or "after" not in m:
+        return True, "no complete small-scope states in the model"
+    world, sims = build(m)
+    bad = _check_pre(m, world, sims)
+    me = sims[m["sim"] if "sim" in m else m.get("me")] if (m.get("sim") or m.get("me")) else None
+    if me is None:
+        return True, "model does not name the simulator"
+    if bad or me.current_step is not None or not me.next_steps:
+        return True, f"precondition does not hold natively ({bad})"
+    lazy = bool(m.get("lazy_stepping"))
+    t = me.next_steps[0]
+    after = m["after"]["sims"]
+
+    async def scenario():
+        task = asyncio.ensure_future(scheduler.wait_for_dependencies(me, lazy))
+        await asyncio.sleep(0)
+        # environment: progress of every simulator moves (monotonically) to the model's later state
+        for n, s in sims.items():
+            newp = TieredTime(after[n]["P"])
+            if s.progress.time <= newp:
+                s.progress.set(newp)
+        for _ in range(5):
+            await asyncio.sleep(0)
+        done = task.done()
+        if not done:
+            task.cancel()
+            try:
+                await task
+            except BaseException:
+                pass
+        return done
+
+    done = world.loop.run_until_complete(scenario())
+    world.loop.close()
+    if not done:
+        return True, "the coroutine is still waiting in the model's later state (postcondition not violated)"
+    problems = []
+    for p_, d in me.input_delays.items():
+        if not t < p_.progress.time + d:
+            problems.append(f"input {p_.sid} has progress {p_.progress.time!r} (+{d!r}), not past {t!r}")
+    for b, d in me.successors_to_wait_for.items():
+        if not t + d <= b.progress.time:
+            problems.append(f"async-request partner {b.sid} has progress {b.progress.time!r}, has not reached {t!r}")
+    if lazy:
+        for c, d in me.successors.items():
+            if not t + d <= c.progress.time:
+                problems.append(f"consumer {c.sid} has progress {c.progress.time!r}, has not reached {t!r} (lazy stepping)")
+    return not problems, (f"wait_for_dependencies({me.sid}, lazy={lazy}) for step {t!r} returned from {describe(m)} "
+                          f"with later progress { {n: after[n]['P'] for n in after} }: {problems}")
